@@ -68,6 +68,9 @@ def run(chk: core.Check):
     from .. import docgen
     from . import c05
     docs = [c05.refdoc(rnd) for _ in range(ngarb // 6)] + [docgen.random_doc(rnd, rnd.randint(1, 6)).text for _ in range(ngarb // 6)] + packed[: ngarb // 6]
+    # a text may begin with characters that are not whitespace for the scanner but often treated as such elsewhere (U+FEFF,
+    # U+200B, U+00A0): they belong to the first block like any other character
+    docs += [rnd.choice(["\ufeff", "\ufeff\n", "\u200b", "\u00a0 ", "\ufeff\ufeff "]) + d for d in docs[: ngarb // 12]]
     recs = splitpipe.t3(chk, bib, docs, how="default")
     chk.clause("T3.default_stack(tiling, start_line, field_line)", len(docs))
     for r in recs:
